@@ -3,7 +3,7 @@
                                                       c k j (copy assign) | m k j (move assign) | D k
    Output: leaks=<n> freed_user=<n> double_free=<n> blocks=<n> live_objects=[id:own:arr ...]
    (blocks / live_objects: the state BEFORE the remaining objects are destroyed; the three
-    counters: after).  "own_old" runs the historical step function (before /repo 9a9c4a3). *)
+    counters: after).  "own_old" runs the historical step function (before /repo b0b02bf). *)
 open Io
 let t_op t : Own.op =
   match t_s t with
